@@ -16,7 +16,7 @@ class Contract:
     def __init__(self, key, variant="default", params=None, requires=None, ensures=None, loops=None, result=None,
                  modifies=None, options=None, fmodel="R", ghost=None, globals_=None, props=(), raises=None,
                  entry_hints=None, exit_hints=None, pure=None, note="", track_written=None, exc_ensures=None,
-                 call_variant=None, returns_none_ok=True, assumes=None):
+                 call_variant=None, returns_none_ok=True, assumes=None, anchors=None):
         self.key = key
         self.variant = variant
         self.path, self.qualname = key.split("::")
@@ -41,6 +41,7 @@ class Contract:
         self.track_written = track_written or []
         self.call_variant = call_variant or {}
         self.assumes = _named(assumes)
+        self.anchors = anchors or {}
         REGISTRY[(key, variant)] = self
 
 
@@ -351,7 +352,17 @@ def spec_call(ex, node, st):
 
 
 # ----------------------------------------------------------------------------- hints
+def _forall_parts(self, expr):
+    node = ast.parse(expr, mode="eval").body if isinstance(expr, str) else expr
+    if not (isinstance(node, ast.Call) and isinstance(node.func, ast.Name) and node.func.id == "forall"):
+        raise Unsupported("inst: invariant is not a forall(...)")
+    return node
+
+
 def apply_hints(self, st, hints, where):
+    """Proof hints (ghost code).  Every fact that is assumed is either proved first (have), a proved
+    lemma/ghost-procedure instance (use/call), a definition of a fresh ghost name (let/freeze) or an
+    instance of a quantified hypothesis that is already in the context (inst).  `assume` is reported."""
     for h in hints:
         kind = h[0]
         if kind == "have":
@@ -359,7 +370,7 @@ def apply_hints(self, st, hints, where):
             by = rest[0] if rest else None
             g = self.spec_eval(expr, st)
             self.emit(st, "have", name, g, where, by=by)
-            st.assume(zbool(g))
+            st.assume(zbool(g), tag=f"have:{name}")
         elif kind == "use":
             _, lname, binding = h
             lem = LEMMAS[lname]
@@ -371,7 +382,7 @@ def apply_hints(self, st, hints, where):
                 sub.env[var] = _coerce(self, v, ty)
             hy = [zbool(self.spec_eval(x, sub)) for x in lem.hyps]
             co = [zbool(self.spec_eval(x, sub)) for x in lem.concl]
-            st.assume(z3.Implies(z3.And(*hy) if hy else z3.BoolVal(True), z3.And(*co)))
+            st.assume(z3.Implies(z3.And(*hy) if hy else z3.BoolVal(True), z3.And(*co)), tag=f"use:{lname}")
         elif kind == "call":
             # ghost procedure (lemma proved as a contract on a sidecar function): ("call", key, {param: expr})
             from . import frontend, libmodels
@@ -383,12 +394,124 @@ def apply_hints(self, st, hints, where):
             self.ctx.ghost_calls.add(key)
             libmodels.invoke_contract(self, st, c, fs, bound, None, label=f"hint@{where}")
         elif kind == "let":
+            # ghost name := expression; scalars become fresh constants with a defining equation (tag let)
             _, name, expr = h
-            st.env[name] = self.spec_eval(expr, st)
+            v = self.spec_eval(expr, st)
+            if z3.is_expr(v) and not isinstance(v, Arr):
+                cst = fresh(name, v.sort())
+                st.assume(cst == v, tag=f"let:{name}")
+                st.env[name] = cst
+            else:
+                st.env[name] = v
+        elif kind == "freeze":
+            # replace the contents term of an array by a fresh array constant equal to it (canonical atoms);
+            # ("freeze", name) in place, ("freeze", name, ghostname) snapshot under a ghost name
+            name = h[1]
+            a = st.env[name]
+            term = st.heap[a.root().oid]
+            cst = fresh(h[2] if len(h) > 2 else name, term.sort())
+            st.assume(cst == term, tag=f"freeze:{name}")
+            if len(h) > 2:
+                g = Arr(self.ctx.new_oid(), a.shape, a.dtype, name=h[2])
+                st.heap[g.oid] = cst
+                st.env[h[2]] = g
+            else:
+                st.heap[a.root().oid] = cst
+        elif kind == "inst":
+            # instance of a quantified loop invariant, evaluated in the loop-head state where it was assumed:
+            # ("inst", invariant_name, {var: expr}) ; the range condition becomes an obligation
+            _, iname, binding = h
+            head = st.extra.get("head")
+            spec_l = st.extra.get("loopspec")
+            if head is None or spec_l is None:
+                raise Unsupported("inst outside a loop body")
+            node = _forall_parts(self, spec_l["invariant"][iname])
+            args = node.args
+            var = args[0].id
+            sub = st.copy()
+            sub.env = dict(head[0]); sub.heap = dict(head[1]); sub.env[head[2]] = head[3]
+            kval = self.spec_eval(binding[var], st)
+            sub.env[var] = kval
+            if len(args) == 4:
+                lo = zint(self.eval(args[1], sub)); hi = zint(self.eval(args[2], sub))
+                self.emit(st, "inst", f"{iname}@{binding[var]}", z3.And(zint(kval) >= lo, zint(kval) < hi), where)
+                body = args[3]
+            else:
+                body = args[1]
+            saved = self.spec_mode
+            self.spec_mode = True
+            try:
+                f = zbool(self.truthy(self.eval(body, sub)))
+            finally:
+                self.spec_mode = saved
+            st.assume(f, tag=f"inst:{iname}")
+        elif kind == "instfact":
+            # instance of a quantified fact established earlier by a ("have", name, "forall(...)") hint
+            _, fname, binding = h
+            expr = st.extra.get("facts", {}).get(fname)
+            if expr is None:
+                raise Unsupported(f"instfact: unknown fact {fname}")
+            fexpr, fenv, fheap = expr
+            node = _forall_parts(self, fexpr)
+            args = node.args
+            var = args[0].id
+            sub = st.copy()
+            sub.env = dict(fenv); sub.heap = dict(fheap)
+            kval = self.spec_eval(binding[var], st)
+            sub.env[var] = kval
+            if len(args) == 4:
+                lo = zint(self.eval(args[1], sub)); hi = zint(self.eval(args[2], sub))
+                self.emit(st, "inst", f"{fname}@{binding[var]}", z3.And(zint(kval) >= lo, zint(kval) < hi), where)
+                body = args[3]
+            else:
+                body = args[1]
+            saved = self.spec_mode
+            self.spec_mode = True
+            try:
+                f = zbool(self.truthy(self.eval(body, sub)))
+            finally:
+                self.spec_mode = saved
+            st.assume(f, tag=f"inst:{fname}")
+        elif kind == "fact":
+            # ("fact", name, "forall(...)" [, by]) : prove a quantified fact now, remember it for instfact
+            _, name, expr, *rest = h
+            by = rest[0] if rest else None
+            g = self.spec_eval(expr, st)
+            self.emit(st, "have", name, g, where, by=by)
+            st.assume(zbool(g), tag=f"have:{name}")
+            st.extra = dict(st.extra)
+            facts = dict(st.extra.get("facts", {}))
+            facts[name] = (expr, dict(st.env), dict(st.heap))
+            st.extra["facts"] = facts
+        elif kind == "scope":
+            # ("scope", [inner hints], name, goal_expr [, by]): inner hints and proof in a scratch copy; only the goal is kept
+            _, inner, name, gexpr, *rest = h
+            by = rest[0] if rest else None
+            sub = st.copy()
+            self.apply_hints(sub, inner, where)
+            g = zbool(self.spec_eval(gexpr, sub))
+            self.emit(sub, "have", name, g, where, by=by)
+            st.assume(zbool(self.spec_eval(gexpr, st)), tag=f"have:{name}")
+        elif kind == "forall_intro":
+            # ("forall_intro", var, lo, hi, [inner hints], name, goal_expr [, by]):
+            # fresh var in [lo,hi), inner hints and the proof of goal in a scratch copy of the state;
+            # only the generalised fact  forall var in [lo,hi): goal  is added to the state.
+            _, var, lo, hi, inner, name, gexpr, *rest = h
+            by = rest[0] if rest else None
+            sub = st.copy()
+            v = fresh(var, z3.IntSort())
+            sub.env[var] = v
+            zlo, zhi = zint(self.spec_eval(lo, st)), zint(self.spec_eval(hi, st))
+            sub.assume(z3.And(v >= zlo, v < zhi), tag="range")
+            self.apply_hints(sub, inner, where)
+            g = zbool(self.spec_eval(gexpr, sub))
+            self.emit(sub, "have", name, g, where, by=by)
+            q = self.spec_eval(f"forall({var}, {lo}, {hi}, {gexpr})", st)
+            st.assume(zbool(q), tag=f"have:{name}")
         elif kind == "assume":
             _, name, expr = h
             self.ctx.assumed.add(f"assume:{self.fname}/{name}")
-            st.assume(zbool(self.spec_eval(expr, st)))
+            st.assume(zbool(self.spec_eval(expr, st)), tag=f"assume:{name}")
         else:
             raise Unsupported(f"hint {kind}")
 
